@@ -20,7 +20,8 @@ CLAIMS = {
          'clamp(sgn(L)*(Q*(2|L|+1) - [Q even]), -2048, 2047) (equal as functions), depends only on L and Q, and is stored at block_data[zig_y][zig_x]; '
          'B the interval reading shows no intermediate overflow for Q in [0,31], L in [-1024,1023] (found D3: i16 product, fixed) and both ranges are checked '
          'at their producers; W escape LEVEL width is 7/11 by one bit exactly under Sorenson version 1, else 8, RUN 6 bits; C IntraDc::from_u8 / into_level folded '
-         'over all 256 codes; D the DQUANT code table and clamp(q + dq, 1, 31). What the coefficient does to decoded samples is C02.',
+         'over all 256 codes; D the DQUANT code table and the update form clamp(q + dq, 1, 31); DQ that update tabulated with Rust cast / overflow semantics, casts as written, '
+         'over all 32 x 5 (quantizer, DQUANT) pairs. What the coefficient does to decoded samples is C02.',
     technique='def-use expression -> canonical-form equality against the written-out formula; interval abstract interpretation; constant folding of finite tables', ref='6/C11'),
  'C09': dict(
     text='Static, all 2^32 patterns x 12 strengths and all sizes: K1 the scalar kernel (helpers inlined, if-converted) has, for each of A,B,C,D, the same '
@@ -69,7 +70,8 @@ CLAIMS = {
          'an exit, dominating the macroblock parse, that fires when len(macroblock vector) >= mb_per_line*mb_height (found D1: absent; fixed); RS the '
          'resynchronisation probe decode_gob / decode_picture are union transactions whose Ok(None) arm leaves the loop without consuming, only outside '
          'Sorenson mode; T7/T4 a failed macroblock or block parse consumes nothing; CM exactly one commit(), after the loop, on every Ok path, with no '
-         'reader movement between loop exit and commit. Hence on success the position is the end of the last macroblock and padding is never read.',
+         'reader movement between loop exit and commit; and what commit() and read_bits() do to the position (C14 E: commit = drain(0..pos/8); pos %= 8, C14 C: read = peek + skip) '
+         're-run here. Hence on success the position is the end of the last macroblock and padding is never read.',
     technique='loop/dominance/control-dependence rules with structural expression matching over MIR; mod/ref effects', ref='6/C15'),
  'C04': dict(
     text='Static, all histories by induction over one call: the state-update discipline of H263State is decided on MIR. R1 accessor guard/key '
@@ -141,7 +143,7 @@ CLAIMS = {
          'fields as slices; R the plane vectors are private and the only use of &mut Vec in the module is deref_mut (a slice cannot change length); Q yuv420_to_rgba cuts chroma '
          'rows at (row/2)*CW with CW a function equal to ceil(width/2) on the whole domain, loops over len(y)/width rows, returns vec![0; 4*len(y)] (exactly width*height pixels), '
          'empty shortcut before any division; J2/S the strength table has 32 entries = Table J.2 with values 1..12 for quantizers 1..31 and Picture.quantizer is a 5-bit read. '
-         'deblock() accepting every such plane is C16. NOT decided: panic-freedom of the slice arithmetic inside yuv420_to_rgba (relational; see C08).',
+         'deblock() accepting every such plane: C16\'s mechanism rules, panic inventory and termination re-run here (C16.*). NOT decided: panic-freedom of the slice arithmetic inside yuv420_to_rgba (relational; see C08).',
     technique='closed-form agreement between producer and consumer (terms tabulated over the full finite domain); visibility / who-may-resize rule; const-table folding', ref='6/C13'),
  'C17': dict(
     text='Static, all executions: no shared mutable state and no nondeterminism source exists in the three crates. S1 every static immutable+Freeze '
